@@ -2,7 +2,7 @@
 from . import lin, common as C
 PROP = "C05"
 PROPS_FILE = "props/C05.v"
-RULE = ('cases = get_marginal for every non-empty index list without repetition in random order (all subsets for D<=3 quick / D<=4 thorough, random for larger D, all coordinates included), full and diagonal densities, R in 1..4; get_density_of_linear_sum for integer full-row-rank W with Dsum<=D, b present or omitted' "; rational parameters (small integers over denominators 1,2,4; SPD = B B' + d I, cond <= 1e3), random constructor "
+RULE = ('cases = get_marginal for every non-empty index list without repetition in random order (all subsets for D<=3 quick / D<=4 thorough, random for larger D, all coordinates included; in a quarter of the cases some coordinates addressed from the end by negative indices), full and diagonal densities, R in 1..4; get_density_of_linear_sum for integer full-row-rank W with Dsum<=D, b present or omitted' "; rational parameters (small integers over denominators 1,2,4; SPD = B B' + d I, cond <= 1e3), random constructor "
         "argument combination; non-trivial = more than one scalar dimension/component involved; distinct = SHA1 of the input description")
 EXPLANATION = ("model get_marginal / linear_sum (Pdf.v) at Qc vs implementation; oracle: independent normal log-density of mu[idx], Sigma[idx,idx] resp. W mu + b, W Sigma W' (numpy)")
 coq_term = lin.coq_term
